@@ -1,23 +1,25 @@
 (* ThrottlingChecker.DoCheck under arbitrary interleavings: a program-counter machine whose
    steps are exactly the code's atomic accesses to lastPassedTime, each labelled with the id of
-   the vhook.Yield that precedes it in core/flow/tc_throttling.go:
+   the vhook.Yield that precedes it in core/flow/tc_throttling.go (the compare-and-swap loop
+   of /repo 65f15f6):
 
-     Start : batch/threshold tests, curNano := clock, intervalNs        -> 201 | Done
-     201   : loaded := Load(last); expected := loaded + i               -> 202 (expected <= cur) | 203
-     202   : CAS(last, loaded, cur)                                     -> Done(pass, wait 0) | 203
-     203   : est := Load(last) + i - cur;  est > maxq ?                 -> Done(block) | 204
-     204   : new := Add(last, +i); est := new - cur;  est > maxq ?      -> 205 | Done(pass, wait max(est,0))
-     205   : Add(last, -i)                                              -> Done(block)
+     Start : batch/threshold tests, curNano := clock, intervalNs            -> 201 | Done
+     201   : loaded := Load(last); pass := max(loaded + i, cur);
+             wait := pass - cur;  wait > maxq ?                             -> Done(block) | 202
+     202   : CAS(last, loaded, pass)                                        -> Done(pass, wait) | 201
 
+   The clock is read once per call, at Start, before the loop: a caller that is parked while
+   the clock moves keeps its stale reading (that is the code, and part of the model).
    A schedule is a list of `Run tid` (one step of one caller) and `SetClock t` (virtual time
-   moves while callers are parked).  Each caller performs one DoCheck; its arrival time is the
-   clock value at its Start step.  The number of callers is unbounded.  No proofs here. *)
+   moves - in any direction - while callers are parked).  Each caller performs one DoCheck;
+   its arrival time is the clock value at its Start step.  The number of callers is unbounded.
+   No proofs here. *)
 From SG Require Import Base.Prelude Base.GoInt Model.Throttle.
 
-Inductive pc := PStart | P201 | P202 | P203 | P204 | P205 | PDone.
+Inductive pc := PStart | P201 | P202 | PDone.
 
 Definition label (p : pc) : Z :=
-  match p with PStart => 0 | P201 => 201 | P202 => 202 | P203 => 203 | P204 => 204 | P205 => 205 | PDone => -1 end.
+  match p with PStart => 0 | P201 => 201 | P202 => 202 | PDone => -1 end.
 
 Record thread := { t_pc : pc; t_b : Z; t_now : Z; t_loaded : Z; t_out : option out }.
 
@@ -28,10 +30,13 @@ Inductive ev := Run (tid : nat) | SetClock (t : Z).
 
 (* ghost log, chronological: what the theorems talk about *)
 Inductive gev :=
-| EGrant (tid : nat) (now b wait last_after : Z)   (* admitted at its CAS / Add *)
-| EAddOver (tid : nat) (b : Z)                     (* Add overshot the limit: rollback pending *)
-| ERollback (tid : nat) (b : Z)                    (* the compensating Add(-i) *)
-| EBlock (tid : nat) (now b last_seen : Z).        (* rejected at 203 on the value it loaded *)
+| ELoad (tid : nat) (seen : Z)                   (* the Load at 201 returned `seen` *)
+| EGrant (tid : nat) (now b wait seen : Z)       (* successful CAS seen -> now + wait: admitted *)
+| EFail (tid : nat)                              (* failed CAS: back to 201 *)
+| EBlock (tid : nat) (now b seen : Z).           (* rejected at 201 on the value it loaded *)
+
+Definition ev_tid (e : gev) : nat :=
+  match e with ELoad t _ => t | EGrant t _ _ _ _ => t | EFail t => t | EBlock t _ _ _ => t end.
 
 Record cst := { c_last : Z; c_clock : Z; c_threads : list thread; c_log : list gev }.
 
@@ -48,10 +53,12 @@ Section Generic.
   Definition goto (th : thread) (p : pc) : thread :=
     {| t_pc := p; t_b := t_b th; t_now := t_now th; t_loaded := t_loaded th; t_out := t_out th |}.
 
+  (* the pass time a caller computes from the value it loaded *)
+  Definition pass_of (loaded now b : Z) : Z := Z.max (loaded + iv b) now.
+
   (* one step of thread `th` (index tid): new shared value, new thread state, ghost events *)
   Definition tstep (tid : nat) (last clock : Z) (th : thread) : Z * thread * list gev :=
     let b := t_b th in
-    let i := iv b in
     let now := t_now th in
     match t_pc th with
     | PStart =>
@@ -59,23 +66,15 @@ Section Generic.
         else if blk b then (last, done th OBlock, [])
         else (last, {| t_pc := P201; t_b := b; t_now := clock; t_loaded := 0; t_out := None |}, [])
     | P201 =>
-        let th' := {| t_pc := (if last + i <=? now then P202 else P203);
-                      t_b := b; t_now := now; t_loaded := last; t_out := None |} in
-        (last, th', [])
+        let th' := {| t_pc := P202; t_b := b; t_now := now; t_loaded := last; t_out := None |} in
+        if pass_of last now b - now >? maxq
+        then (last, done th' OBlock, [ELoad tid last; EBlock tid now b last])
+        else (last, th', [ELoad tid last])
     | P202 =>
+        let pass := pass_of (t_loaded th) now b in
         if last =? t_loaded th
-        then (now, done th (OPass 0), [EGrant tid now b 0 now])
-        else (last, goto th P203, [])
-    | P203 =>
-        if last + i - now >? maxq then (last, done th OBlock, [EBlock tid now b last])
-        else (last, goto th P204, [])
-    | P204 =>
-        let new := last + i in
-        let est := new - now in
-        if est >? maxq then (new, goto th P205, [EAddOver tid b])
-        else let w := if est >? 0 then est else 0 in
-             (new, done th (OPass w), [EGrant tid now b w new])
-    | P205 => (last - i, done th OBlock, [ERollback tid b])
+        then (pass, done th (OPass (pass - now)), [EGrant tid now b (pass - now) (t_loaded th)])
+        else (last, goto th P201, [EFail tid])
     | PDone => (last, th, [])
     end.
 
@@ -110,7 +109,7 @@ Section Generic.
 
   Definition outcomes (s : cst) : list (option out) := map t_out (c_threads s).
 
-  (* the admitted requests of a log, in the order of their CAS / Add *)
+  (* the admitted requests of a log, in the order of their successful CASes *)
   Fixpoint grants_of (l : list gev) : list grant :=
     match l with
     | [] => []
@@ -118,15 +117,41 @@ Section Generic.
     | _ :: r => grants_of r
     end.
 
-  (* no caller added and had to roll back *)
-  Definition rollback_free (l : list gev) : Prop :=
-    Forall (fun e => match e with EAddOver _ _ | ERollback _ _ => False | _ => True end) l.
+  (* the callers that own these grants, same order *)
+  Fixpoint gtids (l : list gev) : list nat :=
+    match l with
+    | [] => []
+    | EGrant t _ _ _ _ :: r => t :: gtids r
+    | _ :: r => gtids r
+    end.
 
-  (* no caller was admitted by an Add whose result already lay in its past (pass time =
-     arrival > stored time): this happens only to the loser of a CAS whose clock reading is
-     older than the winner's by more than an interval *)
-  Definition stale_free (l : list gev) : Prop :=
-    Forall (fun e => match e with EGrant _ now _ w la => la = now + w | _ => True end) l.
+  (* the events after the last event of caller `tid` *)
+  Definition since (tid : nat) (l : list gev) : list gev :=
+    fold_left (fun acc e => if Nat.eqb (ev_tid e) tid then [] else acc ++ [e]) l [].
+
+  Definition granted_to_other (tid : nat) (e : gev) : Prop :=
+    match e with EGrant t _ _ _ _ => t <> tid | _ => False end.
+
+  (* lock-freedom, local form: every failed CAS of a caller is preceded, after that caller's
+     previous event (which is its Load), by a successful CAS of another caller.
+     `pre` is the log before `l`. *)
+  Fixpoint fails_justified (pre l : list gev) : Prop :=
+    match l with
+    | [] => True
+    | e :: r =>
+        match e with
+        | EFail tid => (exists seen l0, pre = l0 ++ ELoad tid seen :: since tid pre) /\
+                       Exists (granted_to_other tid) (since tid pre)
+        | _ => True
+        end /\ fails_justified (pre ++ [e]) r
+    end.
+
+  Definition fails (tid : nat) (l : list gev) : nat :=
+    length (filter (fun e => match e with EFail t => Nat.eqb t tid | _ => false end) l).
+
+  (* successful CASes of callers other than tid *)
+  Definition others (tid : nat) (l : list gev) : nat :=
+    length (filter (fun t => negb (Nat.eqb t tid)) (gtids l)).
 End Generic.
 
 Definition cexec_c (c : cfg) := cexec (early_block c) (interval c) (maxq_ns c).
